@@ -64,6 +64,7 @@ class Check:
         self.trusted: List[str] = []
         self.assumptions: List[str] = []
         self.floors: Dict[str, int] = {}
+        self.robust: set = set()
         self.known = _load_known(pid)
 
     # -- recording --------------------------------------------------------
@@ -74,7 +75,25 @@ class Check:
         self.obligations.append(Obligation(rule, site, "ok", detail))
 
     def violation(self, rule: str, site: str, detail: str, key: str, expected: Any = None, found: Any = None) -> None:
+        """A rule instance fails.  Rules that evaluate facts independently of statement shape (truth tables, accept regions,
+        folded constants, kinds, effects, closed-world 'extra construct' findings) are listed in self.robust and always give a
+        VIOLATION.  The other rules read a pinned idiom: when the function they look at was structurally rewritten
+        (statements added or recast, see Repo.shape_status) their failure only says 'idiom not recognised' -> ANALYSIS-ERROR."""
+        if rule not in self.robust and self._rewritten(site):
+            self.obligations.append(Obligation(rule, site, "error", "idiom not recognised in a structurally rewritten function (rule reads the pinned form): " + detail, key, expected, found))
+            return
         self.obligations.append(Obligation(rule, site, "violation", detail, key, expected, found))
+
+    def _rewritten(self, site: str) -> bool:
+        import re
+
+        m = re.match(r"src/rnapolis/(\w+)\.py(?::\d+)? (\S+)$", site or "")
+        if not m or self.repo is None:
+            return False
+        try:
+            return self.repo.shape_status(m.group(1), m.group(2)) == "shape"
+        except Exception:
+            return False
 
     def error(self, rule: str, site: str, detail: str) -> None:
         self.obligations.append(Obligation(rule, site, "error", detail))
@@ -85,6 +104,41 @@ class Check:
         else:
             self.violation(rule, site, detail_bad, key, expected, found)
         return cond
+
+    # -- shape vs fact (sa/shape.py) -------------------------------------------------------------------
+    def block(self, rule: str, site: str, actual, expected, ok_msg: str, bad_msg: str, key: str) -> bool:
+        """Compare a statement list with the form(s) the rule expects: ok / VIOLATION (a fact differs or a required
+        step is gone) / ANALYSIS-ERROR (another syntactic form: idiom not recognised)."""
+        from .shape import classify_block
+
+        alts = expected if isinstance(expected, (list, tuple)) and expected and isinstance(expected[0], str) else [expected]
+        results = [classify_block(actual, e) for e in alts]
+        return self._classified(results, rule, site, ok_msg, bad_msg, key, actual)
+
+    def expr(self, rule: str, site: str, actual, expected, ok_msg: str, bad_msg: str, key: str) -> bool:
+        from .shape import classify_expr
+
+        if actual is None:
+            self.error(rule, site, f"construct not found ({bad_msg[:80]})")
+            return False
+        alts = expected if isinstance(expected, (list, tuple)) else [expected]
+        results = [classify_expr(actual, e) for e in alts]
+        return self._classified(results, rule, site, ok_msg, bad_msg, key, actual)
+
+    def _classified(self, results, rule, site, ok_msg, bad_msg, key, actual) -> bool:
+        import ast as _ast
+
+        kinds = [k for k, _ in results]
+        if "ok" in kinds:
+            self.ok(rule, site, ok_msg)
+            return True
+        for want in ("fact", "missing"):
+            for k, note in results:
+                if k == want:
+                    self.violation(rule, site, f"{bad_msg} [{note}]", key, found=_text(actual))
+                    return False
+        self.error(rule, site, f"idiom not recognised - {results[0][1]} (rule: {ok_msg[:90]})")
+        return False
 
     def floor(self, rule: str, n: int) -> None:
         """The rule must have bound at least n constructs (confirmed by hand on the pinned tree)."""
@@ -171,6 +225,7 @@ class Check:
                 "functions_analysed": sorted(self.functions),
                 "files": dict(sorted(self.repo.consulted.items())) if self.repo else {},
                 "trusted_base": self.trusted,
+                "locals_renamed_to_reference": {k: v for k, v in (getattr(self.repo, "renamed", {}) or {}).items() if any(k == f or k.startswith(f + ".") or f.startswith(k) for f in self.functions)} if self.repo else {},
                 "analysis_errors": [o.as_json() for o in errs],
                 "violations": [o.as_json() for o in viol],
                 "known_findings": [o.as_json() for o in self.obligations if o.status == "known"],
@@ -183,6 +238,16 @@ class Check:
         with open(os.path.join(evidence_dir(), f"{self.pid}.json"), "w") as f:
             json.dump(ev, f, indent=1)
             f.write("\n")
+
+
+def _text(x: Any) -> Any:
+    import ast as _ast
+
+    if isinstance(x, _ast.AST):
+        return _ast.unparse(x)[:200]
+    if isinstance(x, (list, tuple)):
+        return [_text(y) for y in x][:12]
+    return x
 
 
 def _short(x: Any) -> str:
